@@ -10,4 +10,5 @@ INVARIANT LemmaParsing
 INVARIANT LemmaPolicy
 INVARIANT LemmaClean
 INVARIANT LemmaSocket
+INVARIANT LemmaPoll
 CHECK_DEADLOCK FALSE
